@@ -36,6 +36,67 @@ W_DUP = {'steps': [P(['def', 'P!', ['X', 'X!'], ['cat', sv('X!'), ['num', 0, '%'
                    P(['let', sv('R!'), sv('X!')]), P(['let', sv('B$'), sv('A$')])]}
 
 
+# converted arguments are collector roots from the moment they are converted: a collection while a LATER argument of
+# the same call is evaluated (FRE("") in it, or a nested call that allocates) must not lose the earlier ones
+W_ARGGC = {'steps': [P(['let', sv('C$'), cat(lit('gggggggggg'), lit('g'))]), P(['let', sv('A$'), cat(lit('aaaa'), lit('a'))]),
+                     P(['let', sv('B$'), cat(lit('b'), lit('b'))]), P(['let', sv('C$'), lit('')]),
+                     P(['def', 'C$', ['X$', 'Y!', 'Y$'], cat(sv('X$'), lit('|'), sv('Y$'))]),
+                     P(['def', 'B$', ['X$'], cat(sv('X$'), ['str', FRE_S])]),
+                     P(['let', sv('C$'), fn('C$', cat(sv('B$'), lit('c')), FRE_S, cat(sv('A$'), lit('d')))]),
+                     P(['let', sv('C$'), fn('C$', sv('A$'), ['num', 1, '%'], ['str', FRE_S])]),
+                     P(['let', sv('C$'), fn('C$', cat(sv('B$'), lit('e')), ['num', 2, '%'], fn('B$', lit('n')))]),
+                     P(['let', sv('Q!'), FRE_S]), P(['let', sv('X$'), sv('C$')])]}
+
+
+def arggc_case(rng):
+    """multi-argument calls: earlier arguments are string temporaries / heap strings, a later one collects"""
+    strs = ['A$', 'B$', 'X$', 'Y$']
+    steps = []
+    if rng.random() < 0.5:
+        steps.append(D(['clear', rng.choice([60, 100, 150, 250, 400])]))
+    steps.append(P(['let', sv('C$'), cat(lit('g' * rng.choice([3, 10, 25])), lit('g'))]))
+    for nm in strs[:rng.choice([2, 3, 4])]:
+        steps.append(P(['let', sv(nm), cat(lit(nm[0].lower() * rng.choice([1, 4, 9])), lit('.'))]))
+    steps.append(P(['let', sv('C$'), lit('')]))
+    steps.append(P(['def', 'B$', ['X$'], cat(sv('X$'), ['str', FRE_S])]))
+    steps.append(P(['def', 'A$', ['Y$', 'X$'], cat(sv('X$'), sv('Y$'))]))
+
+    def collecting(numeric):
+        if numeric:
+            return rng.choice([FRE_S, ['len', ['str', FRE_S]], ['len', fn('B$', lit('q'))]])
+        return rng.choice([['str', FRE_S], fn('B$', lit('n')), fn('B$', cat(sv('A$'), lit('m'))),
+                           ['left', cat(lit('yy'), lit('z')), ['len', ['str', FRE_S]]]])
+
+    def early():
+        return rng.choice([cat(sv(rng.choice(strs)), lit('c')), sv(rng.choice(strs)), cat(lit('t'), lit('u')),
+                           fn('A$', lit('p'), sv(rng.choice(strs)))])
+
+    for k in range(rng.choice([2, 3, 4])):
+        params, args = [], []
+        npar = rng.choice([2, 3, 4])
+        late = rng.randrange(1, npar)
+        pool = ['X$', 'Y$', 'A$', 'B$']
+        rng.shuffle(pool)
+        for i in range(npar):
+            if i >= late and rng.random() < 0.5:
+                params.append(rng.choice(['Y!', 'X%', 'Z#', 'X!']))
+                args.append(collecting(True) if i == late or rng.random() < 0.3 else ['num', rng.randrange(0, 99), '%'])
+            else:
+                params.append(pool[i])
+                args.append(early() if i < late else (collecting(False) if i == late or rng.random() < 0.3 else early()))
+        body = sv(params[0])
+        for q in params[1:]:
+            if q.endswith('$'):
+                body = cat(body, lit('|'), sv(q))
+        steps.append(P(['def', 'C$', params, body]))
+        for _ in range(rng.choice([1, 2])):
+            steps.append(P(['let', sv('C$'), ['fn', 'C$', list(args)]]))
+            steps.append(P(['let', sv(rng.choice(strs)), cat(sv('C$'), lit(''))]))
+    steps.append(P(['let', sv('Q!'), FRE_S]))
+    steps.append(P(['let', sv('C$'), sv('A$')]))
+    return {'steps': steps}
+
+
 # the default type of a sigil-less parameter is looked up when the call is made: DEFINT etc. between two calls
 def deftype_case(rng=None, kinds=('INT', 'DBL', 'STR', 'SNG'), rng_range=('X', 'X')):
     steps = [P(['def', 'P!', ['X', 'Y%'], ['cat', ['num', 1, '%'], ['len', sv('A$')]]]),
@@ -71,7 +132,7 @@ class C20(C10):
                'the binding loop; its composition with the argument/save loops of evaluate_call is not one theorem')
 
     def corpus(self):
-        return [dict(w) for w in (W_D15, W_D20A, W_D20B, W_ARGERR, W_RECURSION, W_D10D_ALIAS, W_DUP, W_DEFT)] + [
+        return [dict(w) for w in (W_D15, W_D20A, W_D20B, W_ARGERR, W_RECURSION, W_D10D_ALIAS, W_DUP, W_DEFT, W_ARGGC)] + [
             {'steps': [P(['def', 'A$', [], lit('k')]), P(['let', sv('A$'), fn('A$')])]},
             {'steps': [D(['clear', 60]), P(['def', 'B$', ['X$', 'Y$', 'X!', 'Y%'], cat(sv('X$'), sv('Y$'))]),
                        P(['let', sv('A$'), fn('B$', lit('abc'), lit('def'), ['num', 1, '%'], ['num', 2, '%'])]),
@@ -86,6 +147,9 @@ class C20(C10):
             if i % 8 == 7:
                 ks = [rng.choice(['INT', 'SNG', 'DBL', 'STR']) for _ in range(rng.choice([1, 2, 3]))]
                 out.append(deftype_case(kinds=ks, rng_range=rng.choice([('X', 'X'), ('W', 'Z'), ('A', 'Z')])))
+                continue
+            if i % 8 == 3:
+                out.append(arggc_case(rng))
                 continue
             ns = rng.choice([5, 10, 20, 30, 60, 120] if rng.random() < 0.1 else [5, 10, 20, 30])
             out.append(L.gen_history(rng, ns, fnw=0.55, big=0.1, nfs=(1, 2, 2, 3, 4),
